@@ -14,6 +14,8 @@ from pest.grammar import Choice
 from pest.grammar import Repeat
 from pest.grammar import Rule
 from pest.grammar.expressions import OptimizedChoiceRepeat
+from pest.grammar.rule import ATOMIC
+from pest.grammar.rule import COMPOUND
 from pest.grammar.rule import SILENT
 from pest.grammar.rule import SILENT_ATOMIC
 
@@ -27,6 +29,7 @@ from .optimizers.unroller import unroll
 
 OptimizerPass: TypeAlias = Callable[[Expression, Mapping[str, Rule]], Expression]
 OptimizerPassPredicate: TypeAlias = Callable[[Mapping[str, Rule]], bool]
+OptimizerRulePredicate: TypeAlias = Callable[[Rule, Mapping[str, Rule]], bool]
 
 
 class PassDirection(Enum):
@@ -50,6 +53,9 @@ class OptimizerStep:
         predicate: If not `None`, the predicate is called with the rules to
             be optimized as its only argument. The step will be skipped if the
             predicate returns `False`.
+        rule_predicate: If not `None`, the step is only applied to rules for
+            which the predicate returns `True`. It is called with a rule and
+            all the rules to be optimized.
 
     """
 
@@ -58,11 +64,24 @@ class OptimizerStep:
     direction: PassDirection
     fixed_point: bool = False
     predicate: OptimizerPassPredicate | None = None
+    rule_predicate: OptimizerRulePredicate | None = None
+
+
+def no_implicit_trivia(rule: Rule, rules: Mapping[str, Rule]) -> bool:
+    """True if WHITESPACE and COMMENT are never skipped in `rule`'s expression."""
+    return (
+        bool(rule.modifier & (ATOMIC | COMPOUND))
+        or rule.name in ("WHITESPACE", "COMMENT", "SKIP")
+        or not ("WHITESPACE" in rules or "COMMENT" in rules)
+    )
 
 
 DEFAULT_OPTIMIZER_PASSES = [
     OptimizerStep("unroll", unroll, PassDirection.POSTORDER),
-    OptimizerStep("skip", skip, PassDirection.PREORDER),
+    # `(!"a" ~ ANY)*` skips implicit trivia before every `ANY`, unless it's atomic.
+    OptimizerStep(
+        "skip", skip, PassDirection.PREORDER, rule_predicate=no_implicit_trivia
+    ),
     OptimizerStep("inline built-in", inline_builtin, PassDirection.PREORDER),
     OptimizerStep("squash_choice", squash_choice, PassDirection.POSTORDER),
     OptimizerStep("inline silent", inline_silent_rules, PassDirection.POSTORDER),
@@ -95,7 +114,9 @@ class Optimizer:
                 continue
 
             for name, rule in rules.items():
-                # TODO: some passes should only be applied to atomic rules
+                if step.rule_predicate and not step.rule_predicate(rule, rules):
+                    continue
+
                 expr = rule.expression
 
                 if step.fixed_point:
